@@ -5,6 +5,8 @@ from ..cfg import CFG
 from ..lib import returns_of, is_none_const, dominating_literals
 from .fsproto import write_effects, FINAL, TEMP, UNKNOWN, ctor_kind
 
+from . import extra as X
+
 EXPLANATION = ("Typestate over the ordered file-system effects of each entry writer (FileCache.store/store_metadata, "
                "FileStore.store/store_metadata; StoreCache.store goes through FileStore.store): a final *data* path may "
                "only be produced by write-to-temporary + replace; a final *metadata* (JSON) path may be written in place "
@@ -135,3 +137,6 @@ def run(chk):
     rule_removal_order(chk, "C16.4")
     chk.extra["reader_gates"] = {"FileCache.get": "metadata status == ready AND data file exists AND decode succeeds",
                                  "FileStore.get_bytes": "data file exists"}
+    X.rule_replace_after_close(chk, "C16.5")
+    X.rule_filestore_temp_hidden(chk, "C16.6")
+    X.rule_remove_matches_store(chk, "C16.7")
